@@ -12,11 +12,13 @@ package c17
 import (
 	"errors"
 	"fmt"
+	"math"
 	"runtime"
 	"sort"
 	"sync"
 	"sync/atomic"
 	"testing"
+	"testing/synctest"
 	"time"
 
 	"github.com/esimov/gogu"
@@ -170,7 +172,7 @@ type callRec struct {
 	val        int
 	nilItem    bool
 	err        error
-	ran        bool // its own closure was executed
+	ran        bool             // its own closure was executed
 	item       *cache.Item[int] // what Memoize handed out (kept and read again at the end of the case)
 }
 
@@ -846,6 +848,50 @@ func sharedProp(c SharedCase, r *pbt.R) error {
 	return nil
 }
 
+// ---------------------------------------------------------------------------
+// sweep: a memoizer with a background cleanup never loses a value that has no deadline or whose deadline is far away
+
+// SweepCase: Exp indexes sweepExps, Cleanup sweepCleanups; Keys keys are memoized, the bubble sleeps over several cleanup
+// ticks, every key is asked for again (twice).
+type SweepCase struct {
+	Exp     int `json:"exp"`
+	Cleanup int `json:"cleanup"`
+	Keys    int `json:"keys"`
+}
+
+var sweepExps = []time.Duration{0, cache.NoExpiration, -time.Second, time.Hour, math.MinInt64}
+var sweepCleanups = []time.Duration{5 * time.Millisecond, time.Millisecond, 50 * time.Millisecond}
+
+func sweepProp(c SweepCase, r *pbt.R) error {
+	exp := sweepExps[((c.Exp%len(sweepExps))+len(sweepExps))%len(sweepExps)]
+	cl := sweepCleanups[((c.Cleanup%len(sweepCleanups))+len(sweepCleanups))%len(sweepCleanups)]
+	n := 1 + ((c.Keys-1)%50+50)%50
+	m := gogu.NewMemoizer[string, int](exp, cl)
+	defer func() {
+		m.Cache.VerifStopCleanup()
+		synctest.Wait()
+	}()
+	synctest.Wait()
+	runs := make([]int, n)
+	for round := 0; round < 3; round++ {
+		for k := 0; k < n; k++ {
+			k := k
+			it, err := m.Memoize(fmt.Sprintf("key-%d", k), func() (*cache.Item[int], error) { runs[k]++; return mkItem(10*k + 1), nil })
+			if err != nil || it == nil || it.Val() != 10*k+1 {
+				return fmt.Errorf("Memoizer(expiration %d ns, cleanup every %v), %d keys, round %d: Memoize(key-%d) = (%v, %v), want %d", int64(exp), cl, n, round, k, it, err, 10*k+1)
+			}
+			if runs[k] != 1 {
+				return fmt.Errorf("Memoizer(expiration %d ns, cleanup every %v), %d keys, round %d (rounds are 120ms apart): the function of key-%d has run %d times, want once - its value has no deadline within the case and the background cleanup removes expired entries only",
+					int64(exp), cl, n, round, k, runs[k])
+			}
+		}
+		time.Sleep(120 * time.Millisecond)
+		synctest.Wait()
+	}
+	r.NonTrivialIf(true, "every case")
+	return nil
+}
+
 func TestProp(t *testing.T) {
 	pbt.Run(t, "C17",
 		&pbt.Check[Case]{
@@ -890,9 +936,22 @@ func TestProp(t *testing.T) {
 			RapidQuick: 300, RapidThorough: 5000,
 			Bubble: true,
 		},
+		&pbt.Check[SweepCase]{
+			Name: "sweep",
+			Rule: "memoizers WITH a background cleanup (every 1, 5 or 50ms) whose entries have no deadline (expiration 0, NoExpiration, -1s, the most negative Duration) or a distant one (1h), in virtual time: 1..50 keys are memoized, and asked for again 120ms and 240ms later: every function runs once, every value is right. Enumerated: 5 expirations x 3 intervals x {1, 2, 7} keys; random: up to 50 keys. Non-trivial = every case.",
+			Enum: func(s pbt.Src, _ bool) SweepCase {
+				return SweepCase{Exp: s.Intn(len(sweepExps)), Cleanup: s.Intn(len(sweepCleanups)), Keys: pbt.Pick(s, 1, 2, 7)}
+			},
+			Gen: func(s pbt.Src, _ bool) SweepCase {
+				return SweepCase{Exp: s.Intn(len(sweepExps)), Cleanup: s.Intn(len(sweepCleanups)), Keys: 8 + s.Intn(43)}
+			},
+			Prop: sweepProp, OutOfEnum: func(c SweepCase, _ bool) bool { return c.Keys != 1 && c.Keys != 2 && c.Keys != 7 },
+			RapidQuick: 30, RapidThorough: 600,
+			Bubble: true,
+		},
 		&pbt.Check[VolumeCase]{
-			Name: "volume",
-			Rule: "one Memoizer (expiry none / 1h), N distinct keys memoized one after the other and then all asked for again: every value is right and every function ran exactly once. N in {1, 100, 1023, 1024, 1025, 3000} (thorough also 10000). Non-trivial = N >= 1000.",
+			Name:  "volume",
+			Rule:  "one Memoizer (expiry none / 1h), N distinct keys memoized one after the other and then all asked for again: every value is right and every function ran exactly once. N in {1, 100, 1023, 1024, 1025, 3000} (thorough also 10000). Non-trivial = N >= 1000.",
 			Fixed: []VolumeCase{{1, 0}, {100, 1}, {1023, 1}, {1024, 1}, {1025, 1}, {3000, 1}, {3000, 0}},
 			Gen: func(s pbt.Src, thorough bool) VolumeCase {
 				if thorough {
